@@ -29,6 +29,7 @@ type harnessSpec struct {
 	Covers  []string                  `json:"covers"`
 	Known   []string                  `json:"known"`
 	Threads bool                      `json:"threads"`
+	NoNative bool                     `json:"no_native"` // the native build cannot be forced onto the model (wall clock): engine-side replay only
 	Note    string                    `json:"note"`
 }
 
@@ -469,6 +470,58 @@ func runProperty(prop string, ps *propSpec, opt options) int {
 				Inputs: v.Inputs, Schedule: v.Schedule, Expect: map[string]any{"kind": v.Kind, "message": v.Msg, "site": v.Site, "known": v.Known}})
 			files = append(files, p)
 			vfiles[p] = v
+		}
+		if hs.NoNative && !opt.noNat {
+			// engine-side replay: re-execute the harness with every input fixed to the model value
+			var vps []string
+			for p := range vfiles {
+				vps = append(vps, p)
+			}
+			sort.Strings(vps)
+			for _, p := range vps {
+				v := vfiles[p]
+				h2 := &symex.HarnessRun{Name: hs.Name, Entry: entry, Params: params, Unwind: h.Unwind, MaxSteps: h.MaxSteps, MaxDecisions: h.MaxDecisions,
+					QueryTimeout: h.QueryTimeout, IncrTimeout: h.IncrTimeout, Preemptions: h.Preemptions, Fixed: v.Inputs, MaxPaths: 64}
+				prog.Explore(h2, 1, opt.solver)
+				confirmed := false
+				for _, v2 := range h2.Violations {
+					if v2.Msg == v.Msg {
+						confirmed = true
+					}
+				}
+				desc := fmt.Sprintf("%s: %s at %s", hs.Name, v.Msg, v.Site)
+				if !confirmed {
+					problems = append(problems, "UNCONFIRMED counterexample (engine-side replay with fixed inputs does not fail): "+desc+" replay="+p)
+					continue
+				}
+				if !v.Unlisted && len(v.Known) > 0 {
+					ok := true
+					for _, k := range v.Known {
+						if _, listed := activeKF[k]; !listed {
+							ok = false
+						}
+					}
+					if ok {
+						for _, k := range v.Known {
+							if !knownPrinted[k] {
+								knownPrinted[k] = true
+								knownLines = append(knownLines, fmt.Sprintf("KNOWN-FINDING: property=%s kf=%s %s (witness %s)", prop, k, activeKF[k].text, p))
+							}
+						}
+						continue
+					}
+				}
+				violationLines = append(violationLines, fmt.Sprintf("VIOLATION property=%s replay=%s", prop, p))
+				fmt.Printf("  violation (engine-side replay; the wall clock cannot be forced natively): %s\n", desc)
+				ev.Violations++
+			}
+			for i, w := range h.Witnesses {
+				if i >= 2 {
+					break
+				}
+				ev.addSample(hs.Name, w)
+			}
+			continue
 		}
 		if opt.noNat {
 			for p, v := range vfiles {
